@@ -911,7 +911,22 @@ func describeLayout(l *Layout) string {
 	for _, leaf := range l.Leaves {
 		parts = append(parts, fmt.Sprintf("%s%v nometric=%v fields=%v", leaf.Name, leaf.Shards, leaf.NoMetric, leaf.KnownFields))
 	}
-	return fmt.Sprintf("leaves=[%s] receivers=%d leafperm=%v rootperm=%v", strings.Join(parts, "; "), l.Receivers, l.LeafPerm, l.RootPerm)
+	// the root's targets over physical plans (splitPlans: a function of the targets and the root's delivery order)
+	var rootFrom []string
+	perm := l.RootPerm
+	if l.Receivers == 0 {
+		for _, leaf := range l.Leaves {
+			rootFrom = append(rootFrom, leaf.Name)
+		}
+		if len(l.LeafPerm) > 0 {
+			perm = l.LeafPerm[0]
+		}
+	} else {
+		for j := 0; j < l.Receivers; j++ {
+			rootFrom = append(rootFrom, fmt.Sprintf("im%d", j))
+		}
+	}
+	return fmt.Sprintf("leaves=[%s] receivers=%d leafperm=%v rootperm=%v rootplans=%v", strings.Join(parts, "; "), l.Receivers, l.LeafPerm, l.RootPerm, splitPlans(rootFrom, perm))
 }
 
 // layoutCase: one world + query, the reference layout (one shard, one leaf, no intermediates)
